@@ -277,3 +277,11 @@ claim("C40", IRJ,
       "holds its initial value: same ordered byte-write log, same exit, same value in every general register and flag.",
       "TLC; functions without calls; x86-32; one recorded known finding (memory reads through constant pointers are propagated as "
       "constants past later stores)", "DESIGN.md 5/C40", "IRJudge")
+
+claim("C37", IRJ,
+      "Random structured x86-32 functions (loops, loops through the function head, diamonds) are lifted and converted with "
+      "SSADiGraph; TLC checks on the exported SSA graph: at most one definition per variable, every ordinary use dominated by its "
+      "definition (dominance evaluated from its definition over paths), every phi argument defined in a block dominating a "
+      "predecessor of the phi's block. UnSSADiGraph's output is run against the original graph on IRMachine.tla from several "
+      "initial states: same ordered writes, same exit, same value of every register and flag (through shadow variables).",
+      "TLC; x86-32 functions without calls; graphs up to ~25 blocks", "DESIGN.md 5/C37", "IRJudge")
